@@ -157,9 +157,16 @@ enabled_list(int *en) {
       nbase++;
   if (cur != HOME && base_enabled(cur))
     en[n++] = cur;
-  for (t = 0; t < nthr; t++)
-    if (t != cur && base_enabled(t))
-      en[n++] = t;
+  if (cfg.starve_default) {
+    /* second base scheduler: highest id first (lcdb's background thread before the foreground) */
+    for (t = nthr - 1; t >= 0; t--)
+      if (t != cur && base_enabled(t))
+        en[n++] = t;
+  } else {
+    for (t = 0; t < nthr; t++)
+      if (t != cur && base_enabled(t))
+        en[n++] = t;
+  }
   if (nbase == 0)
     for (t = 0; t < nthr; t++)
       if (thr[t].state == T_BLK_DRAIN)
@@ -167,10 +174,25 @@ enabled_list(int *en) {
   return n;
 }
 
+static int quiet;        /* choices are not recorded and always default (setup phases) */
+static uint64_t evt_counter;
+
+void
+sch_quiet(int on) {
+  VH_ENTER;
+  quiet = on;
+}
+
+uint64_t
+sch_event(void) {
+  VH_ENTER;
+  return ++evt_counter;
+}
+
 static int
 pick(int kind, int nopt, int cur_enabled) {
   int c = 0;
-  if (nopt < 2)
+  if (nopt < 2 || quiet)
     return 0;
   if (npos < cfg.nprefix) {
     c = cfg.prefix[npos];
@@ -334,6 +356,8 @@ sch_run(void (*body)(void *), void *arg, const sch_cfg_t *c) {
     cfg.step_max = 200000;
   nthr = 0;
   npos = 0;
+  quiet = 0;
+  evt_counter = 0;
   sch_trace_len = 0;
   sch_steps = 0;
   run_status = SCH_OK;
